@@ -501,6 +501,11 @@ func (e *LeaderEngine) electLagging(lag int) error {
 		return fmt.Errorf("follower: %w", err)
 	}
 	f.disconnect()
+	if e.beforeFence != nil {
+		if err := e.beforeFence(f); err != nil {
+			return err
+		}
+	}
 	nt, err := guard(func() (*proto.NewTermResponse, error) {
 		return f.fc.NewTerm(&proto.NewTermRequest{Shard: Shard, Term: e.term + 1})
 	})
